@@ -69,6 +69,10 @@ flag — `thread_run_stops false …` — differ between the tree with and witho
 (`notes/fixes/D30.diff`, `D31.diff`); no lemma here fixes either value: the C17 theorems carry them as hypotheses, so the same
 proofs check on both trees.  Once the repairs are in `/repo`, add `thread_cancel_guards_self_join = true` and
 `thread_run_stops false true b = true` here and discharge those hypotheses (notes/agents/C17.md, "flip").) -/
+/-- (repair of D30) `ServiceBrowser.cancel()` tests whether it runs on the browser's own thread before joining -/
+theorem thread_cancel_guards_self_join_holds : thread_cancel_guards_self_join = true := by decide
+/-- (repair of D31) `ServiceBrowser.run()` returns once the instance is done, whatever is still queued -/
+theorem thread_run_stops_when_done (c : Bool) : thread_run_stops false true c = true := by simp [thread_run_stops]
 /-- the four calls of `Zeroconf.close()` come in the order of the model's stages -/
 theorem sync_order_holds : (sync_close_unregisters_before_done && sync_close_done_before_engine_close
     && sync_close_engine_close_before_threads && async_close_sets_done_first) = true := by decide
